@@ -437,7 +437,10 @@ class Run:
             "wall_s": round(time.time() - self.t0, 2),
             "violations": 0 if rc == 0 else max(1, len(self.violations) + len(getattr(self, "mismatches", []))),
         }
-        d = os.path.join(VERIF, "evidence")
+        # evidence/ holds runs against /repo itself; runs against another tree (seeded changes,
+        # scratch copies) write elsewhere
+        d = os.environ.get("VERIF_EVIDENCE_DIR") or (os.path.join(VERIF, "evidence") if os.path.realpath(REPO) == "/repo"
+                                                     else os.path.join("/tmp", "orso-verif-evidence-other-tree"))
         os.makedirs(d, exist_ok=True)
         with open(os.path.join(d, self.pid + ".json"), "w") as f:
             json.dump(ev, f, indent=1, default=repr)
